@@ -346,6 +346,13 @@ def gen_request(rng, w, p, names):
         props = {"name": name, "waiting": waiting, "nostop": rng.random() < 0.3}
     elif cmd == "quit":
         props = {"waiting": waiting}
+    elif cmd == "get":
+        props = {"name": name, "keys": rng.sample(["numprocesses", "graceful_timeout", "cmd", "stop_signal", "warmup_delay",
+                                                   "priority", "nosuchkey"], rng.choice([1, 2, 3]))}
+    elif cmd == "globaloptions":
+        props = rng.choice([{}, {"option": "check_delay"}, {"option": "endpoint"}, {"option": "nosuch"}])
+    elif cmd == "listsockets":
+        props = {}
     elif cmd in ("status", "list", "numprocesses", "stats", "options"):
         props = {"name": name} if (rng.random() < 0.6 or cmd == "options") else {}
     else:
